@@ -380,20 +380,17 @@ func init() {
 		if fn := funcDecl("xlsxWorksheet", "setPageSetUp"); fn == nil {
 			fail("func (ws *xlsxWorksheet) setPageSetUp")
 		} else {
-			g := ""
+			// FirstPageNumber is stored whenever it is given: no literal guard on its value
+			guarded := false
 			ast.Inspect(fn.Body, func(n ast.Node) bool {
-				if x, ok := n.(*ast.BinaryExpr); ok && x.Op == token.GTR && strings.Contains(src(x.X), "FirstPageNumber") {
-					if bl, ok := x.Y.(*ast.BasicLit); ok {
-						g = bl.Value
+				if x, ok := n.(*ast.BinaryExpr); ok && strings.Contains(src(x.X), "*opts.FirstPageNumber") {
+					if _, ok := x.Y.(*ast.BasicLit); ok {
+						guarded = true
 					}
 				}
 				return true
 			})
-			if g == "" {
-				fail("setPageSetUp: `*opts.FirstPageNumber > <lit>`")
-			} else {
-				fmt.Fprintf(w, "def firstPageNumberAbove : Nat := %s\n", g)
-			}
+			fmt.Fprintf(w, "def firstPageNumberGuarded : Bool := %v\n", guarded)
 		}
 		w.WriteString("\n/-! data validations: enum constants in iota order with the strings of the two maps, error styles -/\n")
 		c18EnumMap(w, "DataValidationType", "dataValidationTypeMap", "dvTypeNames")
